@@ -128,6 +128,13 @@ class AbstractJunction(AbstractCondition, ABC):
     def __iter__(self):
         return iter(sorted(self.conditions))
 
+    def __invert__(self):
+        """
+        De Morgan: not (a and b) is (not a) or (not b)
+        """
+        dual = Or if isinstance(self, And) else And
+        return dual(*[~condition for condition in self.conditions])
+
     @property
     def tables(self) -> Set[Table]:
         """
